@@ -728,3 +728,67 @@ def _dims_order(u: Unit):
 
 
 unit("C08", "dims.order")(_dims_order)      # a swept value reaches the setting of ITS key: names and value tuples are paired by position on the dask path
+
+
+# ---- Processor.replace assigns like Processor.set: textual values inside sequences are converted on the dask path too ----------------------
+REPLACE_CONV_REPLAY = lambda w: {"code": """
+import verif_probes as VP
+from pyxel.pipelines import DetectionPipeline, ModelFunction, Processor
+from pyxel.observation.misc import create_new_processor
+VIOLATED, DETAIL = False, 'replace() and create_new_processor() leave in the setting what set() leaves: the value the text denotes'
+pipe = DetectionPipeline(photon_collection=[ModelFunction(func='verif_probes.probe', name='m', arguments={'level': 1, 'table': [1, 2, 3]})])
+proc = Processor(detector=VP.detector(), pipeline=pipe)
+key = 'pipeline.photon_collection.m.arguments.table'
+for value, want in ((['0', '1', '9e-6'], [0, 1, 9e-06]), ((0, 1, '9e-6'), [0, 1, 9e-06]), (('1e3', '2e3'), [1000.0, 2000.0]), ('[1, 2]', [1, 2]), ('5', 5), (7.5, 7.5), ([1, 2], [1, 2])):
+    ref = Processor(detector=VP.detector(), pipeline=DetectionPipeline(photon_collection=[ModelFunction(func='verif_probes.probe', name='m', arguments={'level': 1, 'table': [1, 2, 3]})]))
+    ref.set(key, value)
+    expect = ref.get(key)
+    for how, make in (('replace', lambda: proc.replace({key: value})), ('create_new_processor', lambda: create_new_processor(processor=proc, parameter_dict={key: value}))):
+        got = make().get(key)
+        if got != expect or got != want or any(type(a) is not type(b) for a, b in zip(got if isinstance(got, list) else [got], expect if isinstance(expect, list) else [expect])):
+            VIOLATED, DETAIL = True, f'{how}({{{key!r}: {value!r}}}) leaves {got!r}; set() leaves {expect!r}'; break
+    if VIOLATED: break
+""", "expect": "the same key and value give the same setting through set, replace and create_new_processor"}
+
+
+@unit("C08", "replace.converts")
+def replace_converts(u: Unit):
+    """Processor.replace and create_new_processor: for every requested (key, value) — text, number, list or tuple — exactly one
+    set(key, value) on the COPY with the conversion of textual values left on (set's default), so the three ways of assigning through
+    a key agree (set itself: units set / conv)."""
+    PRQ, MISCQ = "pyxel/pipelines/processor.py::Processor", "pyxel/observation/misc.py::create_new_processor"
+    pci = u.cls(PRQ)
+    for label, fq, call in (("replace", f"{PRQ}.replace", lambda me, d: ([me, d], {})), ("create_new_processor", MISCQ, lambda me, d: ([], {"processor": me, "parameter_dict": d}))):
+        fi = u.fn(fq)
+        cfg = Cfg("real")
+        boundary.install(cfg) if "boundary" in globals() else None
+        rec = u.track({})
+        sq = f"{PRQ}.set"
+        cfg.contracts[sq] = Contract(sq, lambda ex, args, kwargs, fr, rec=rec: (rec.setdefault("sets", []).append((args[0], list(args[1:]), dict(kwargs))), NONE)[1], "C08.set / conv")
+        cfg.lib_overrides["copy.deepcopy"] = lambda ex, f, args, kwargs, fr, rec=rec: (rec.update(copied=args[0]), ex.st.alloc(HObj(pci, {"_copy_of": args[0]})))[1]
+
+        def setup(ex, call=call, rec=rec):
+            rec.clear()
+            me = ex.st.alloc(HObj(pci, {}))
+            vals = [VStr(z3.String("text_value")), VFloat(z3.Real("number_value")), ex.st.alloc(HList([VStr("0"), VStr("9e-6"), VInt(1)])), VTuple([VStr("1e3"), VInt(2)])]
+            keys = [VStr(f"pipeline.g.m.arguments.a{i}") for i in range(len(vals))]
+            ex.hold = {"me": me, "vals": vals, "keys": keys}
+            return call(me, ex.st.alloc(HDict(list(zip(keys, vals)))))
+        ps = u.paths(fi, setup, cfg, label=label)
+        for p in ps:
+            if p.kind != "return":
+                u.oblige(p, f"replace.converts[{label}].returns", False, {"exc": p.exc_name()}, REPLACE_CONV_REPLAY)
+                continue
+            sets, h = rec.get("sets", []), p.ex.hold
+            on_copy = isinstance(p.value, VRef) and all(isinstance(s_[0], VRef) and s_[0].addr == p.value.addr for s_ in sets) and p.value.addr != h["me"].addr
+            ok = len(sets) == len(h["vals"])
+            conv_on = True
+            for (tgt, pos, kw), k, v in zip(sets, h["keys"], h["vals"]):
+                got_k = kw.get("key", pos[0] if pos else None)
+                got_v = kw.get("value", pos[1] if len(pos) > 1 else None)
+                cv = kw.get("convert_value", pos[2] if len(pos) > 2 else None)
+                ok = ok and got_k is k and got_v is v
+                conv_on = conv_on and (cv is None or (isinstance(cv, VBool) and cv.v is True))
+            u.oblige(p, f"replace.converts[{label}].one_set_per_request_on_the_copy", bool(ok and on_copy), {"sets": len(sets)}, REPLACE_CONV_REPLAY)
+            u.oblige(p, f"replace.converts[{label}].conversion_left_on", bool(conv_on), {"convert_value": str([str(s_[2].get("convert_value")) for s_ in sets])}, REPLACE_CONV_REPLAY)
+        u.cover(f"replace.converts.cover[{label}]", ps, lambda p: p.kind == "return")
